@@ -27,7 +27,19 @@ type Effects struct {
 }
 
 func NewEffects(tb *TB) *Effects {
-	return &Effects{tb: tb, w: tb.W, memo: map[*ssa.Function][]Effect{}, stack: map[*ssa.Function]bool{}}
+	ef := &Effects{tb: tb, w: tb.W, memo: map[*ssa.Function][]Effect{}, stack: map[*ssa.Function]bool{}}
+	tb.WritesParam = func(callee *ssa.Function, i int) bool {
+		if ef.stack[callee] {
+			return true
+		}
+		for _, e := range ef.Of(callee) {
+			if e.Root.Op == "param" && paramIdxOfTerm(e.Root) == i {
+				return true
+			}
+		}
+		return false
+	}
+	return ef
 }
 
 func interestingRoot(r *Term) bool {
